@@ -558,6 +558,32 @@ type tickerState struct {
 	ch      *mchan
 	ptr     *value
 	stopped bool
+	oneShot bool  // time.Timer / time.After / time.AfterFunc: fires at most once per (re)arming
+	fn      value // time.AfterFunc: run in a new goroutine when fired
+}
+
+// newTimer models time.NewTimer / time.AfterFunc: like a ticker, it fires only when the
+// harness delivers a tick to it (verifTick), and then only once until it is Reset.
+func newTimer(i *interpreter, fn value) value {
+	tpkg := i.prog.ImportedPackage("time")
+	tt := tpkg.Type("Timer").Type()
+	cell := zero(tt)
+	ch := newChan(1)
+	if fn == nil {
+		cell.(structure)[0] = ch
+	}
+	ptr := &cell
+	sched.tickers = append(sched.tickers, &tickerState{ch: ch, ptr: ptr, oneShot: true, fn: fn})
+	return ptr
+}
+
+func timerOf(ptr *value) *tickerState {
+	for _, t := range sched.tickers {
+		if t.ptr == ptr {
+			return t
+		}
+	}
+	return nil
 }
 
 func newTicker(i *interpreter) value {
@@ -587,6 +613,13 @@ func fireTicker(i *interpreter, idx int) bool {
 	t := sched.tickers[idx]
 	if t.stopped {
 		return false
+	}
+	if t.oneShot {
+		t.stopped = true
+	}
+	if t.fn != nil {
+		spawnGoroutine(i, token.NoPos, t.fn, nil)
+		return true
 	}
 	tv := zero(i.prog.ImportedPackage("time").Type("Time").Type())
 	if w := popWaiter(&t.ch.recvq); w != nil {
